@@ -484,7 +484,8 @@ impl PartialOrd<Self> for Repeat {
 
 impl Ord for Repeat {
     fn cmp(&self, other: &Self) -> Ordering {
-        self.as_ordinal().cmp(&other.as_ordinal())
+        (*self == Repeat::Infinite, self.as_ordinal())
+            .cmp(&(*other == Repeat::Infinite, other.as_ordinal()))
     }
 }
 
